@@ -283,6 +283,31 @@ def symx_format_precise(lit, *args, **kwargs):
     return sym_strformat(lit, args, kwargs)
 
 
+def symx_in(a, b):
+    """`a in b`: substring test of a symbolic byte / text value in a concrete bytes / str collection is a formula; everything else is Python's own `in`"""
+    if _type(b) in (bytes, bytearray) and _isinstance(a, (SymBytes, ShByteArray)):
+        items, k = list(a), len(a)
+        if k == 0:
+            return True
+        alts = []
+        for i in range(len(b) - k + 1):
+            alts.append(z3.And(*[byte_term(items[j]) == b[i + j] for j in range(k)]))
+        return SymBool.make(z3.Or(*alts)) if alts else False
+    if _type(b) is str and _isinstance(a, SymStr):
+        items, k = list(a.items), len(a)
+        if k == 0:
+            return True
+        alts = []
+        for i in range(len(b) - k + 1):
+            conj = []
+            for j in range(k):
+                c = items[j]
+                conj.append((c == ord(b[i + j])) if not _isinstance(c, SymInt) else tobool(c == ord(b[i + j])))
+            alts.append(z3.And(*[x if not _isinstance(x, bool) else z3.BoolVal(x) for x in conj]))
+        return SymBool.make(z3.Or(*alts)) if alts else False
+    return a in b
+
+
 def symx_mod(l, r):
     """every `%` whose left operand is not a literal: text formatting with symbolic arguments is modelled"""
     if _isinstance(l, str) and not _isinstance(r, dict):
@@ -834,7 +859,7 @@ def sh_open(name, mode="r", *a, **k):
 
 INJECT = dict(isinstance=sh_isinstance, int=ShInt, bool=ShBool, bytes=ShBytes, bytearray=_BAProxy, str=ShStr,
               type=sh_type, range=sh_range, open=sh_open)
-HOOKS = dict(__symx_b__=CBytes, __symx_fmt__=symx_fmt, __symx_exc__=symx_exc, __symx_mod__=symx_mod, __symx_sjoin__=symx_sjoin,
+HOOKS = dict(__symx_in__=symx_in, __symx_b__=CBytes, __symx_fmt__=symx_fmt, __symx_exc__=symx_exc, __symx_mod__=symx_mod, __symx_sjoin__=symx_sjoin,
              __symx_format__=symx_format)
 HOOKS_EXTRA = dict(HOOKS, __symx_fmt__=symx_fmt_precise, __symx_mod__=symx_mod_precise, __symx_format__=symx_format_precise)
 
@@ -863,6 +888,15 @@ class Instrument(ast.NodeTransformer):
             return ast.copy_location(ast.Call(func=ast.Name(id="__symx_sjoin__", ctx=ast.Load()), args=[f.value, node.args[0]], keywords=[]), node)
         if isinstance(f, ast.Attribute) and f.attr == "format" and isinstance(f.value, ast.Constant) and isinstance(f.value.value, str):
             return ast.copy_location(ast.Call(func=ast.Name(id="__symx_format__", ctx=ast.Load()), args=[f.value] + node.args, keywords=node.keywords), node)
+        return node
+
+    def visit_Compare(self, node):
+        self.generic_visit(node)
+        if len(node.ops) == 1 and isinstance(node.ops[0], (ast.In, ast.NotIn)):
+            call = ast.Call(func=ast.Name(id="__symx_in__", ctx=ast.Load()), args=[node.left, node.comparators[0]], keywords=[])
+            if isinstance(node.ops[0], ast.NotIn):
+                call = ast.UnaryOp(op=ast.Not(), operand=call)
+            return ast.copy_location(call, node)
         return node
 
     def visit_ExceptHandler(self, node):
